@@ -181,7 +181,7 @@ func newSimClusterAt(n int, dir string) *simCluster {
 		id := uint64(i)
 		opts := badger.DefaultOptions("").WithInMemory(true).WithLogger(nil).WithMaxTableSize(1 << 20).WithNumMemtables(2)
 		if dir != "" {
-			opts = badger.DefaultOptions(fmt.Sprintf("%s/node-%d", dir, id)).WithLogger(nil).WithSyncWrites(false).WithMaxTableSize(1 << 20).WithNumMemtables(2).WithValueLogFileSize(1 << 22)
+			opts = badger.DefaultOptions(fmt.Sprintf("%s/node-%d", dir, id)).WithLogger(nil).WithSyncWrites(false).WithMaxTableSize(1 << 20).WithNumMemtables(2).WithValueLogFileSize(1 << 22).WithTruncate(serverStoreTruncates())
 		}
 		db, err := badger.Open(opts)
 		if err != nil {
